@@ -2,6 +2,7 @@ import DrummerVerif.Lemmas.C04H
 import DrummerVerif.Lemmas.C04a
 import DrummerVerif.Lemmas.LoopSys
 import DrummerVerif.Lemmas.C04L
+import DrummerVerif.Lemmas.Small
 /-!
 # C04 — the membership view only moves forward and mirrors the newest complete report
 
@@ -139,6 +140,23 @@ theorem stamping_pass_keeps_first_seen_times :
                 List.map (fun r => (r.replicaId, r.address, r.firstObserved)) c'.replicas =
                   List.map (fun r => (r.replicaId, r.address, r.firstObserved)) c.replicas :=
   @_root_.Drummer.updateNodeTick_first_observed
+
+
+/-! ### mirrors the newest report, leader part (one entry) -/
+
+theorem leader_flag_follows_the_members_report :
+    ∀ (mc : MultiShard) (ci : ShardInfo) (c : Shard) (n : Replica),
+      MultiShard.find? mc ci.shardId = some c →
+        List.Nodup (List.map (fun x => x.replicaId) c.replicas) →
+          ¬c.cci > ci.cci →
+            Shard.find? c ci.replicaId = some n →
+              ∀ (nhi : NodeHostInfo),
+                nhi.shardInfo = [ci] →
+                  ∃ c',
+                    MultiShard.find? (syncLeaderInfo mc nhi) ci.shardId = some c' ∧
+                      c'.cci = c.cci ∧
+                        ∀ (r : Replica), r ∈ c'.replicas → r.replicaId = ci.replicaId → r.isLeader = ci.isLeader :=
+  @_root_.Drummer.leader_flag_follows_report
 
 
 end C04
